@@ -84,7 +84,7 @@ ASSUMPTIONS = [
     'debugging aid: with C15_DEBUG=1 in the environment every failing (site, class tag) pair is additionally counted as '
     'a coverage class "dbg ..."; it changes no verdict',
 ]
-REQUIRED_CLASSES = ['ctor:NED', 'ctor:ENU', 'ctor:lat=0', 'ctor:lon=0', 'ctor:place=default', 'ctor:date=None',
+REQUIRED_CLASSES = ['number-types', 'ctor:NED', 'ctor:ENU', 'ctor:lat=0', 'ctor:lon=0', 'ctor:place=default', 'ctor:date=None',
                     'ctor:date=day', 'ctor:date=decimal', 'ctor:seam-1e-3',
                     'op:field(date=decimal)', 'op:field(date=day)', 'op:field(date=omitted)',
                     'op:field(date=None) first evaluation after a load', 'op:field(date=None) on used coefficients',
@@ -99,8 +99,8 @@ CTOR_DATES_T = CTOR_DATES + [2022.449]
 CTOR_PLACES = [None, (0.0, 20.0, 0.0), (10.0, 0.0, 0.0), (0.0, 0.0, 0.0), (10.0, 20.0, 0.0), (90.0, 0.0, 0.0)]
 PLACES = [(0.0, 20.0, 0.0), (10.0, 0.0, 0.0), (10.0, 0.0, 400.0), (90.0, 0.0, 0.0), (-90.0, 50.0, 0.0), (45.0, 180.0, 0.0), (45.0, -180.0, 0.0)]   # (10, 0) at two heights
 PLACES_MENU = [(10.0, 20.0, 0.0), (70.0, -100.0, 0.0), (0.0, 0.0, 0.0), (-33.5, 151.25, 100.0), (-60.0, -70.0, 0.5)]
-DATES = [2019.999, 2022.5, 2025.0, 'day:2021-07-01', 'day:2019-12-31', None, 'omit']
-DATES_T = [2015.0, 2019.999, 2020.0, 2022.5, 2024.999, 2025.0, 'day:2021-07-01', 'day:2019-12-31', None, 'omit']
+DATES = [2019.999, 2022.5, 2025.0, 'day:2021-07-01', 'day:2019-12-31', 'day:2020-01-01', None, 'omit']     # 2019.999 falls on the calendar day 2020-01-01 (other model file)
+DATES_T = [2015.0, 2019.999, 2020.0, 2022.5, 2022.4505, 2024.999, 2025.0, 'day:2021-07-01', 'day:2019-12-31', 'day:2020-01-01', 'day:2022-06-14', None, 'omit']   # 2022.4505 falls on 2022-06-14 (other tenth)
 RESETS = [2019.999]
 RESETS_T = [2019.999, 2022.5, None]
 READS = ['magnetic_elements', 'geodetic_vector']
@@ -400,11 +400,49 @@ def mc_judge(ctx, hist, o, exc, src_id, dst_id):
         ctx.expect(dst_id == src_id, f'{P}: does not change the state of the object', key, dst_id, src_id)
 
 
+
+def job_number_types(ctx):
+    """(date, place, height) carried by other numeric types (whole degrees / kilometres as Python ints or numpy integers): same answers as
+    a fresh object asked the same values as floats, through the constructor and through magnetic_field on a used object."""
+    W = _lib()
+    IP = [(10, -20, 1), (80, 0, 100), (48, 11, 0), (0, 0, 0), (-90, 50, 0), (45, 180, 0), (-33, 151, 5)]
+    carriers = [('int', int), ('numpy.int64', np.int64), ('numpy.int32', np.int32), ('numpy.float64', np.float64)]
+    for frame in ('NED', 'ENU'):
+        for dd in (2021.0, 2019.9, 2025.0):
+            for (lat, lon, h) in IP:
+                for cn, cv in carriers:
+                    for how in ('constructor', 'magnetic_field', 'magnetic_field (height omitted)'):
+                        if how.endswith('omitted)') and h != 0:
+                            continue
+                        key = f'{how} date={dd} lat={lat} lon={lon} h={h} frame={frame} numbers as {cn}'
+                        ctx.evals += 1
+                        try:
+                            if how == 'constructor':
+                                o = W.WMM(date=dd, latitude=cv(lat), longitude=cv(lon), height=cv(h), frame=frame)
+                            else:
+                                o = W.WMM(date=2022.5, latitude=10.0, longitude=20.0, height=0.0, frame=frame)
+                                if how.endswith('omitted)'):
+                                    o.magnetic_field(cv(lat), cv(lon), date=dd)
+                                else:
+                                    o.magnetic_field(cv(lat), cv(lon), cv(h), date=dd)
+                        except TypeError:
+                            ctx.outcome(('number-type-refused', cn, how))
+                            continue
+                        except Exception as ex:
+                            ctx.fail('WMM with the place in another numeric type: does not raise', key, f'{type(ex).__name__}: {ex}'[:160], 'an answer')
+                            continue
+                        _judge_answer(ctx, 'place given in another numeric type', key, o, (dd, float(lat), float(lon), float(h), frame))
+                        ctx.cls('number-types')
+                        ctx.seen(('numtype', frame, dd, lat, lon, h, cn, how))
+    ctx.sample({'number_types': [c[0] for c in carriers], 'places': IP})
+
+
 # ---- driver --------------------------------------------------------------------------------------------------------
 def run(ctx):
     inits = initial_events(ctx)
     summary = explore.explore(ctx, __name__, inits, max_depth=None, max_states=50000,
                               max_transitions=600000 if ctx.thorough else 60000, chunk=2, init_chunk=6)
+    core.run_jobs(ctx, __name__, [('job_number_types', ())])
     ctx.cls('explore:transition into a known state', summary['transitions_into_known_states'])
     if summary['fixpoint_reached']:
         ctx.cls('explore:fixpoint')
